@@ -108,7 +108,7 @@ pub fn encode(ts: &TileSet, root: &Path, o: &EncOpts) -> Result<(), String> {
 		std::fs::create_dir_all(&dir).map_err(|e| e.to_string())?;
 		let file = dir.join(format!("{}{}{}", spell(k.2, if vy == 1 { 1 } else { 0 }), ext, ts.comp.ext()));
 		#[cfg(unix)]
-		if o.symlinks && (k.1 + k.2 * 3) % 4 != 2 {
+		if o.symlinks && (k.1 as u64 + k.2 as u64 * 3) % 4 != 2 {
 			// the blob lives in a pool folder, the tile name is a link to it (absolute target)
 			let pool = root.join("pool");
 			std::fs::create_dir_all(&pool).map_err(|e| e.to_string())?;
@@ -129,6 +129,14 @@ pub fn encode(ts: &TileSet, root: &Path, o: &EncOpts) -> Result<(), String> {
 	}
 	if o.stray_files {
 		std::fs::write(root.join("README.txt"), b"not a tile").map_err(|e| e.to_string())?;
+		// neighbours of the metadata file that merely begin with its name: an editor's backup holding an older
+		// revision, a checksum, a note — none of them is the metadata
+		if !o.no_meta {
+			let stale = "{\"tilejson\":\"2.2.0\",\"name\":\"older revision\",\"bounds\":[-170,-80,170,80],\"stale_key\":\"left behind\"}";
+			std::fs::write(root.join(format!("{}~", o.meta_name)), stale).map_err(|e| e.to_string())?;
+			std::fs::write(root.join(format!("{}.bak", o.meta_name)), stale).map_err(|e| e.to_string())?;
+			std::fs::write(root.join(format!("{}.sha256", o.meta_name)), b"0f3a  tiles.json\n").map_err(|e| e.to_string())?;
+		}
 		std::fs::create_dir_all(root.join("assets")).map_err(|e| e.to_string())?;
 		std::fs::write(root.join("assets").join("style.json"), b"{}").map_err(|e| e.to_string())?;
 	}
